@@ -19,7 +19,9 @@ def decVal : String → Option Val
 def decFetch : String → Option Fetch | "ok" => some .ok | "err" => some .err | _ => none
 def decDl : String → Option Dl | "none" => some .none | "past" => some .past | "future" => some .future | _ => none
 def decBeh : String → Option Beh
-  | "nil" => some .retNil | "err" => some .retErr | "panic" => some .panic | "block" => some .block | _ => none
+  | "nil" => some .retNil | "err" => some .retErr | "panic" => some .panic | "block" => some .block
+  | "panicerr" => some .panic   -- the panic value is an error wrapping context.Canceled: still a panic
+  | _ => none
 def decCancel : String → Option CancelAt
   | "never" => some .never | "before" => some .beforeDispatch | "waiting" => some .waitingWorker
   | "fetch" => some .duringFetch | "running" => some .running | _ => none
